@@ -95,7 +95,7 @@ func (t *fnTrans) atEntry() {
 	t.assume(eq(t.h.get(t.cur, "rheld"), "((as const (Array Int Bool)) false)"))
 	t.ownEntry()
 	// the event log of this activation starts empty
-	for _, k := range []string{"spawned", "sent", "freed", "closed", "armed", "stopped", "fired", "broadcast", "read"} {
+	for _, k := range []string{"spawned", "sent", "freed", "closed", "armed", "stopped", "fired", "broadcast", "read", "called"} {
 		hv := t.h.reg("ghost:"+k, "(Array Int Bool)")
 		t.assume(eq(t.h.get(t.cur, hv), "((as const (Array Int Bool)) false)"))
 		hn := t.h.reg("ghost:"+k+".n", "Int")
@@ -826,11 +826,29 @@ func (t *fnTrans) condFromField(fa *ssa.FieldAddr) (key, field string, mu ssa.Va
 		return "", "", nil, false
 	}
 	lk, _ := t.g.resolveLockPath(pt.Elem(), path)
+	// owner of the lock: the object reached by the path without its last component
+	t.condOwner = nil
+	e := &evalCtx{t: t, fn: t.fn, st: t.cur, old: t.entry, binds: map[string]sval{"this": {term: t.val(fa.X), typ: fa.X.Type(), sort: "Int"}}}
+	func() {
+		defer func() { recover() }()
+		expr := "this"
+		if i := strings.LastIndex(path, "."); i >= 0 {
+			expr = "this." + path[:i]
+		}
+		x, err := parseSpec(expr)
+		if err == nil {
+			v := e.eval(x)
+			t.condOwner = &v
+		}
+	}()
 	return k, lk, fa.X, true
 }
 
 // releaseEffectsKey / acquireEffectsKey: cond.Wait = Unlock; Lock on the cond's mutex.
 func (t *fnTrans) releaseEffectsKey(in ssa.Instruction, base ssa.Value, field, nm string) {
+	if t.condOwner != nil {
+		t.assertInvariants(*t.condOwner, in.Pos(), "wait:"+nm)
+	}
 	t.monitorAssertField(in, field, nm)
 }
 
@@ -845,6 +863,9 @@ func (t *fnTrans) acquireEffectsKey(base ssa.Value, field string) {
 			t.h.reg(gf.hv, srt)
 		}
 		t.h.set(t.cur, gf.hv, t.c.declare(t.c.fresh(gf.hv), srt))
+	}
+	if t.condOwner != nil {
+		t.assumeInvariants(*t.condOwner)
 	}
 	t.monitorAssumeField(field)
 }
